@@ -1,0 +1,115 @@
+/*
+ * verification hooks (compiled only with -DNEATVI_VERIF)
+ *
+ * Records are NDJSON lines appended with a single write(2) to the file
+ * named by $NEATVI_VERIF_TRACE; without that variable the hooks do nothing.
+ * The implementation is compiled into the unit that defines VERIF_IMPL (vi.c).
+ */
+#ifdef NEATVI_VERIF
+#ifndef NEATVI_VERIF_H
+#define NEATVI_VERIF_H
+
+int verif_on(void);				/* non-zero if tracing is enabled */
+void verif_emit(struct sbuf *sb);		/* append '\n', write and free sb */
+void verif_hex(struct sbuf *sb, char *s, long n);	/* "hex" or null; n < 0: strlen */
+void verif_int(struct sbuf *sb, char *key, long val);	/* ,"key":val */
+void verif_key(struct sbuf *sb, char *key);	/* ,"key": */
+struct sbuf *verif_rec(char *ev);		/* {"ev":"<ev>" */
+void verif_keyin(int c);			/* a key was read from the input queue */
+void verif_keys(struct sbuf *sb);		/* ,"keys":"hex" and reset */
+
+/* state dumps implemented next to the data they describe */
+void lbuf_verif_dump(struct lbuf *lb, struct sbuf *sb, int full);
+void reg_verif_dump(struct sbuf *sb);
+void ex_verif_state(struct sbuf *sb);
+
+/* regex.c counters */
+extern int verif_re_cuts;	/* branches cut by the NDEPT recursion limit */
+extern int verif_re_alloc;	/* instructions reserved by the last regcomp() */
+extern int verif_re_used;	/* instructions emitted by the last regcomp() */
+
+#ifdef VERIF_IMPL
+#include <fcntl.h>
+#include <stdlib.h>
+#include <string.h>
+#include <unistd.h>
+
+static int verif_fd = -2;
+static char verif_kbuf[1 << 16];
+static int verif_klen;
+
+int verif_on(void)
+{
+	if (verif_fd == -2) {
+		char *path = getenv("NEATVI_VERIF_TRACE");
+		verif_fd = path ? open(path, O_WRONLY | O_APPEND | O_CREAT, 0600) : -1;
+	}
+	return verif_fd >= 0;
+}
+
+void verif_emit(struct sbuf *sb)
+{
+	sbuf_str(sb, "}\n");
+	if (verif_on())
+		write(verif_fd, sbuf_buf(sb), sbuf_len(sb));
+	sbuf_free(sb);
+}
+
+void verif_hex(struct sbuf *sb, char *s, long n)
+{
+	static char *digs = "0123456789abcdef";
+	long i;
+	if (!s) {
+		sbuf_str(sb, "null");
+		return;
+	}
+	if (n < 0)
+		n = strlen(s);
+	sbuf_chr(sb, '"');
+	for (i = 0; i < n; i++) {
+		sbuf_chr(sb, digs[((unsigned char) s[i]) >> 4]);
+		sbuf_chr(sb, digs[((unsigned char) s[i]) & 15]);
+	}
+	sbuf_chr(sb, '"');
+}
+
+void verif_key(struct sbuf *sb, char *key)
+{
+	sbuf_str(sb, ",\"");
+	sbuf_str(sb, key);
+	sbuf_str(sb, "\":");
+}
+
+void verif_int(struct sbuf *sb, char *key, long val)
+{
+	char num[32];
+	verif_key(sb, key);
+	snprintf(num, sizeof(num), "%ld", val);
+	sbuf_str(sb, num);
+}
+
+struct sbuf *verif_rec(char *ev)
+{
+	struct sbuf *sb = sbuf_make();
+	sbuf_str(sb, "{\"ev\":\"");
+	sbuf_str(sb, ev);
+	sbuf_chr(sb, '"');
+	return sb;
+}
+
+void verif_keyin(int c)
+{
+	if (verif_klen < (int) sizeof(verif_kbuf))
+		verif_kbuf[verif_klen++] = c;
+}
+
+void verif_keys(struct sbuf *sb)
+{
+	verif_key(sb, "keys");
+	verif_hex(sb, verif_kbuf, verif_klen);
+	verif_klen = 0;
+}
+#endif /* VERIF_IMPL */
+
+#endif /* NEATVI_VERIF_H */
+#endif /* NEATVI_VERIF */
